@@ -74,8 +74,8 @@ def pdf1_params(rng, name):
         return [dy(rng, 0.5, 3), dy(rng, 0.5, 8)]
     if name == 'lognormal':
         return [dy(rng, -1, 2), dy(rng, 0.5, 2)]
-    if name == 'beta':
-        return [dy(rng, 0.5, 3), dy(rng, 0.5, 3)]
+    if name == 'beta':      # second shape >= 1: the density is finite at x = 1, which a log-spaced grid over (2^-k, 2^k) hits exactly
+        return [dy(rng, 0.5, 3), dy(rng, 1, 3)]
     raise ValueError(name)
 
 def pdf2_params(rng, name, sym=None):
@@ -528,7 +528,8 @@ def scenarios(ctx):
             continue
         for i, ok, e in lib.parse_results(so):
             got[i] = (ok, e)
-            ctx.err('quadrature', e, 'tol 1e-10 x max |entry|')
+            if ok and e > -1000:   # agreeing cases only (the other model variant of a defective function disagrees by design; -1074 marks cases in which model and implementation both raise)
+                ctx.err('quadrature', e, 'tol 1e-10 x max |entry| (= 2^-33.2)')
     ctx.checker_cmds.append('coqc -Q coq/theories Dadi build/cases/C17_sc_*.v  (%d cases, vm_compute)' % len(meta))
     # which model variant does the source implement?  (False = snapshot as written, True = repaired)
     # group the variants of one operation
